@@ -5,7 +5,8 @@ import WK.Proofs.C05_Enc
   `WK.Gen.C05.digestItems` (the ordered hash writes of `digestProposalEntry`)
   is regenerated from /repo on every run and `preimage` is defined from it, so
   these theorems are re-proved against what the code hashes now.  SHA-256 is the
-  parameter `H`; `Collision H` is the explicit escape of every binding theorem.
+  parameter `H`; the escape of every binding theorem is an EXPLICIT colliding pair
+  (`CollideOn H x y` with x, y the two preimages involved), which implies `Collision H`.
 -/
 namespace WK.C05
 open WK.Gen.C05
@@ -81,17 +82,17 @@ theorem c05_preimage_congr {e : Entry} {r : Rec} {e' : Entry} {r' : Rec} (h : Se
 /-- **digest binds or collision** -/
 theorem c05_digest_binds (H : Bytes → Dig) {e : Entry} {r : Rec} {e' : Entry} {r' : Rec}
     (hw : WF e r) (hw' : WF e' r') (h : digest H e r = digest H e' r') :
-    SemEq e r e' r' ∨ Collision H := by
+    SemEq e r e' r' ∨ CollideOn H (preimage e r) (preimage e' r') := by
   by_cases hp : preimage e r = preimage e' r'
   · exact Or.inl (c05_preimage_injective hw hw' hp)
-  · exact Or.inr ⟨_, _, hp, h⟩
+  · exact Or.inr ⟨hp, h⟩
 
 /-- single-field sensitivity at digest level -/
 theorem c05_single_field_digest (H : Bytes → Dig) {e : Entry} {r : Rec} {e' : Entry} {r' : Rec}
     (hw : WF e r) (hw' : WF e' r') (f : Fld) (hf : f ∈ hashedFlds) (hne : ¬ ValEq e r e' r' f) :
-    digest H e r ≠ digest H e' r' ∨ Collision H := by
+    digest H e r ≠ digest H e' r' ∨ CollideOn H (preimage e r) (preimage e' r') := by
   by_cases hd : digest H e r = digest H e' r'
-  · exact Or.inr ⟨_, _, c05_single_field hw hw' f hf hne, hd⟩
+  · exact Or.inr ⟨c05_single_field hw hw' f hf hne, hd⟩
   · exact Or.inl hd
 
 /-! ### VerifyEntry -/
@@ -121,7 +122,8 @@ theorem c05_guards_force (e : Entry) (r : Rec) (h : verifyGuards e r = true) :
 
 /-- **accepting two contents under one identity is a collision** -/
 theorem c05_verify_rejects_other (H : Bytes → Dig) {e : Entry} {r r' : Rec} (hw : WF e r) (hw' : WF e r')
-    (h : verify H e r = true) (h' : verify H e r' = true) : RecSemEq r r' ∨ Collision H := by
+    (h : verify H e r = true) (h' : verify H e r' = true) :
+    RecSemEq r r' ∨ CollideOn H (preimage e r) (preimage e r') := by
   have a := ((c05_verify_iff H e r).mp h).2
   have b := ((c05_verify_iff H e r').mp h').2
   rcases c05_digest_binds H hw hw' (a.symm.trans b) with s | c
@@ -259,7 +261,8 @@ theorem c05_verify_sealed (H : Bytes → Dig) (hnz : ∀ x, H x ≠ zero32) (m :
     identity is the sealed record's seven message fields — or a collision. -/
 theorem c05_verify_exact (H : Bytes → Dig) {e : Entry} {r r' : Rec} (hw : WF e r) (hw' : WF e r')
     (hsealed : verify H e r = true) :
-    verify H e r' = true → (RecSemEq r r' ∧ (r'.index = 0 ∨ r'.index = e.index) ∧ r'.epoch = e.epoch) ∨ Collision H := by
+    verify H e r' = true → (RecSemEq r r' ∧ (r'.index = 0 ∨ r'.index = e.index) ∧ r'.epoch = e.epoch) ∨
+      CollideOn H (preimage e r) (preimage e r') := by
   intro h'
   rcases c05_verify_rejects_other H hw hw' hsealed h' with s | c
   · have g := c05_guards_force e r' ((c05_verify_iff H e r').mp h').1
@@ -297,6 +300,153 @@ theorem c05_chain (H : Bytes → Dig) (m : Manifest) :
         exact ⟨⟨rfl, rfl, rfl, rfl, rfl, rfl, rfl, rfl, rfl, a⟩, by simp [b]⟩
       · cases h
     · cases h
+
+/-! ### the tail digest binds the whole proposal -/
+
+/-- field domains of a manifest header -/
+structure MWF (m : Manifest) : Prop where
+  epoch : m.epoch < 18446744073709551616
+  term : m.term < 18446744073709551616
+  fence : m.fence < 18446744073709551616
+  cmd : m.cmd.length = 32
+
+/-- field domains of a record -/
+structure RWF (r : Rec) : Prop where
+  id : r.id < 18446744073709551616
+  setting : r.setting < 256
+  tsLo : -9223372036854775808 ≤ r.ts
+  tsHi : r.ts < 9223372036854775808
+  frm : r.frm.length < 18446744073709551616
+  cmn : r.cmn.length < 18446744073709551616
+  payload : r.payload.length < 18446744073709551616
+
+inductive AllR (P : Rec → Rec → Prop) : List Rec → List Rec → Prop
+  | nil : AllR P [] []
+  | cons {r r' rs rs'} : P r r' → AllR P rs rs' → AllR P (r :: rs) (r' :: rs')
+
+/-- the entry `chain` builds before hashing -/
+def mkEntry (m : Manifest) (index pt pi : Nat) (pd : Dig) : Entry :=
+  { version := 1, epoch := m.epoch, term := m.term, fence := m.fence, index := index,
+    pterm := pt, pidx := pi, cmd := m.cmd, pdig := pd, dig := [] }
+
+/-- a collision between the preimages of an entry of one derivation and an entry of the other -/
+def ChainCollision (H : Bytes → Dig) (es : List Entry) (recs : List Rec) (es' : List Entry) (recs' : List Rec) : Prop :=
+  ∃ e r e' r', (e, r) ∈ es.zip recs ∧ (e', r') ∈ es'.zip recs' ∧ CollideOn H (preimage e r) (preimage e' r')
+
+theorem ChainCollision.cons {H : Bytes → Dig} {es : List Entry} {recs : List Rec} {es' : List Entry} {recs' : List Rec}
+    (h : ChainCollision H es recs es' recs') (e : Entry) (r : Rec) (e' : Entry) (r' : Rec) :
+    ChainCollision H (e :: es) (r :: recs) (e' :: es') (r' :: recs') := by
+  obtain ⟨a, b, c, d, h1, h2, h3⟩ := h
+  exact ⟨a, b, c, d, by simp [h1], by simp [h2], h3⟩
+
+def lastDig (es : List Entry) : Option Dig := es.getLast?.map (·.dig)
+
+theorem lastDig_cons (e : Entry) (e2 : Entry) (es : List Entry) : lastDig (e :: e2 :: es) = lastDig (e2 :: es) := by
+  simp [lastDig, List.getLast?_cons_cons]
+
+/-- **the tail digest binds the whole proposal**: two derivations of equal length whose LAST entry
+    digests agree have the same header, the same start position and predecessor, and pointwise the
+    same seven message fields — unless the hash collides. -/
+theorem c05_chain_binds (H : Bytes → Dig) (hlen : ∀ x, (H x).length = 32)
+    (m m' : Manifest) (hm : MWF m) (hm' : MWF m') :
+    ∀ (recs recs' : List Rec), recs.length = recs'.length → recs ≠ [] →
+    ∀ (index pt pi : Nat) (pd : Dig) (index' pt' pi' : Nat) (pd' : Dig) (es es' : List Entry),
+      chain H m index pt pi pd recs = some es → chain H m' index' pt' pi' pd' recs' = some es' →
+      (∀ r ∈ recs, RWF r) → (∀ r ∈ recs', RWF r) →
+      index + recs.length ≤ 18446744073709551616 → index' + recs'.length ≤ 18446744073709551616 →
+      pt < 18446744073709551616 → pi < 18446744073709551616 → pd.length = 32 →
+      pt' < 18446744073709551616 → pi' < 18446744073709551616 → pd'.length = 32 →
+      lastDig es = lastDig es' →
+      ((m.epoch = m'.epoch ∧ m.term = m'.term ∧ m.fence = m'.fence ∧ m.cmd = m'.cmd) ∧
+        index = index' ∧ pt = pt' ∧ pi = pi' ∧ pd = pd' ∧ AllR RecSemEq recs recs') ∨
+      ChainCollision H es recs es' recs' := by
+  intro recs
+  induction recs with
+  | nil => intro recs' _ hne; exact absurd rfl hne
+  | cons r rs ih =>
+    intro recs' hl _ index pt pi pd index' pt' pi' pd' es es' hc hc' hr hr' hb hb' h1 h2 h3 h1' h2' h3' hlast
+    cases recs' with
+    | nil => simp at hl
+    | cons r' rs' =>
+      simp only [chain] at hc hc'
+      split at hc
+      · split at hc
+        · rename_i tl htl
+          split at hc'
+          · split at hc'
+            · rename_i tl' htl'
+              simp only [Option.some.injEq] at hc hc'
+              subst hc; subst hc'
+              simp only [List.length_cons] at hl hb hb'
+              have wf : WF (mkEntry m index pt pi pd) r := by
+                have q := hr r (by simp)
+                exact ⟨hm.epoch, hm.term, hm.fence, (by show index < 18446744073709551616; omega), h1, h2, hm.cmd, h3, q.id, q.setting, q.tsLo, q.tsHi, q.frm, q.cmn, q.payload⟩
+              have wf' : WF (mkEntry m' index' pt' pi' pd') r' := by
+                have q := hr' r' (by simp)
+                exact ⟨hm'.epoch, hm'.term, hm'.fence, (by show index' < 18446744073709551616; omega), h1', h2', hm'.cmd, h3', q.id, q.setting, q.tsLo, q.tsHi, q.frm, q.cmn, q.payload⟩
+              -- from equal digests of the two head entries: all hashed fields agree
+              have head : ∀ (hd : digest H (mkEntry m index pt pi pd) r = digest H (mkEntry m' index' pt' pi' pd') r'),
+                  ((m.epoch = m'.epoch ∧ m.term = m'.term ∧ m.fence = m'.fence ∧ m.cmd = m'.cmd) ∧
+                  index = index' ∧ pt = pt' ∧ pi = pi' ∧ pd = pd' ∧ RecSemEq r r') ∨
+                  CollideOn H (preimage (mkEntry m index pt pi pd) r) (preimage (mkEntry m' index' pt' pi' pd') r') := by
+                intro hd
+                by_cases hp : preimage (mkEntry m index pt pi pd) r = preimage (mkEntry m' index' pt' pi' pd') r'
+                · have s := c05_preimage_injective wf wf' hp
+                  exact Or.inl ⟨⟨s.epoch, s.term, s.fence, s.cmd⟩, s.index, s.pterm, s.pidx, s.pdig,
+                    ⟨s.id, s.setting, s.sync, s.ts, s.frm, s.cmn, s.payload⟩⟩
+                · exact Or.inr ⟨hp, hd⟩
+              -- a collision of the two head entries is a collision of the chains
+              have lift : ∀ {tl tl' : List Entry} {rs rs' : List Rec},
+                  CollideOn H (preimage (mkEntry m index pt pi pd) r) (preimage (mkEntry m' index' pt' pi' pd') r') →
+                  ChainCollision H ({ mkEntry m index pt pi pd with dig := digest H (mkEntry m index pt pi pd) r } :: tl) (r :: rs)
+                    ({ mkEntry m' index' pt' pi' pd' with dig := digest H (mkEntry m' index' pt' pi' pd') r' } :: tl') (r' :: rs') := by
+                intro tl tl' rs rs' hc
+                refine ⟨{ mkEntry m index pt pi pd with dig := digest H (mkEntry m index pt pi pd) r }, r,
+                  { mkEntry m' index' pt' pi' pd' with dig := digest H (mkEntry m' index' pt' pi' pd') r' }, r',
+                  by simp, by simp, ?_⟩
+                rw [preimage_dig, preimage_dig]; exact hc
+              cases rs with
+              | nil =>
+                cases rs' with
+                | cons _ _ => simp at hl
+                | nil =>
+                  simp only [chain, Option.some.injEq] at htl htl'
+                  subst htl; subst htl'
+                  simp only [lastDig, List.getLast?_singleton, Option.map_some, Option.some.injEq] at hlast
+                  rcases head hlast with ⟨a, b, c, d, e, f⟩ | hcol
+                  · exact Or.inl ⟨a, b, c, d, e, AllR.cons f AllR.nil⟩
+                  · exact Or.inr (lift hcol)
+              | cons r2 rs2 =>
+                cases rs' with
+                | nil => simp at hl
+                | cons r2' rs2' =>
+                  -- tails are non-empty, so the last digests are those of the tails
+                  have tlne : ∃ x xs, tl = x :: xs := by
+                    have := (c05_chain H m _ _ _ _ _ _ htl).2
+                    cases tl with
+                    | nil => simp at this
+                    | cons x xs => exact ⟨x, xs, rfl⟩
+                  have tlne' : ∃ x xs, tl' = x :: xs := by
+                    have := (c05_chain H m' _ _ _ _ _ _ htl').2
+                    cases tl' with
+                    | nil => simp at this
+                    | cons x xs => exact ⟨x, xs, rfl⟩
+                  obtain ⟨x, xs, rfl⟩ := tlne
+                  obtain ⟨x', xs', rfl⟩ := tlne'
+                  rw [lastDig_cons, lastDig_cons] at hlast
+                  have ihh := ih (r2' :: rs2') (by simpa using hl) (by simp) _ _ _ _ _ _ _ _ _ _ htl htl'
+                    (fun q hq => hr q (List.mem_cons_of_mem _ hq)) (fun q hq => hr' q (List.mem_cons_of_mem _ hq))
+                    (by simp only [List.length_cons] at hb ⊢; omega) (by simp only [List.length_cons] at hb' ⊢; omega)
+                    hm.term (by omega) (hlen _) hm'.term (by omega) (hlen _) hlast
+                  rcases ihh with ⟨_, _, _, _, hdig, htail⟩ | hcol
+                  · rcases head hdig with ⟨a, b, c, d, e, f⟩ | hcol
+                    · exact Or.inl ⟨a, b, c, d, e, AllR.cons f htail⟩
+                    · exact Or.inr (lift hcol)
+                  · exact Or.inr (hcol.cons _ _ _ _)
+            · cases hc'
+          · cases hc'
+        · cases hc
+      · cases hc
 
 /-! ### non-vacuity -/
 
@@ -340,6 +490,18 @@ example : ∃ es, derive exH exMan [exRec] = some es ∧ All2 (fun e r => verify
   have h : (derive exH exMan [exRec]).isSome = true := by decide
   obtain ⟨es, hes⟩ := Option.isSome_iff_exists.mp h
   exact ⟨es, hes, c05_verify_sealed exH exH_nz exMan [exRec] es hes⟩
+-- c05_chain_binds: its hypotheses are met by the example derivation (against itself)
+theorem exH_len : ∀ x, (exH x).length = 32 := by intro x; simp [exH]
+example : ∃ es, chain exH exMan 1 0 0 zero32 [exRec] = some es ∧
+    (((exMan.epoch = exMan.epoch ∧ exMan.term = exMan.term ∧ exMan.fence = exMan.fence ∧ exMan.cmd = exMan.cmd) ∧
+      1 = 1 ∧ 0 = 0 ∧ 0 = 0 ∧ zero32 = zero32 ∧ AllR RecSemEq [exRec] [exRec]) ∨ ChainCollision exH es [exRec] es [exRec]) := by
+  have h : (chain exH exMan 1 0 0 zero32 [exRec]).isSome = true := by decide
+  obtain ⟨es, hes⟩ := Option.isSome_iff_exists.mp h
+  have rw : ∀ r ∈ [exRec], RWF r := by
+    intro r hr; simp at hr; subst hr; constructor <;> simp [exRec]
+  exact ⟨es, hes, c05_chain_binds exH exH_len exMan exMan (by constructor <;> simp [exMan]) (by constructor <;> simp [exMan])
+    [exRec] [exRec] rfl (by simp) 1 0 0 zero32 1 0 0 zero32 es es hes hes rw rw (by simp) (by simp)
+    (by omega) (by omega) (by simp [zero32]) (by omega) (by omega) (by simp [zero32]) rfl⟩
 -- c05_verify_rejects_other: a hash WITH collisions really lets a different record through (the escape is needed)
 example : verify (fun _ => List.replicate 32 5) exEntry exRec = true ∧
     verify (fun _ => List.replicate 32 5) exEntry { exRec with payload := [] } = true := by decide
